@@ -479,7 +479,8 @@ int main(int argc, char** argv) {
   std::map<std::string, int> reported_class;
   for (Cand& c : cands) {
     // a handful of representatives per class reported by the workers is enough
-    if (reported_class[c.res.vclass]++ >= (c.res.vclass == "crash/worker" ? 8 : 3)) continue;
+    static const bool discovery = getenv("BLOCSIM_DISCOVERY") != nullptr;   // list many distinct classes quickly, no minimisation
+    if (reported_class[c.res.vclass]++ >= (c.res.vclass == "crash/worker" ? (discovery ? 200 : 8) : 3)) continue;
     if (c.plan.is_null()) c.plan = prof->generate(o.seed, c.run, o.tier);
     // gate: twice in pristine children, same class and same trace hash
     ExecResult a = run_isolated(prof, c.plan, prof->watchdog_s() * 2);
@@ -500,7 +501,7 @@ int main(int argc, char** argv) {
       continue;
     }
     long rr = 0; json minp = c.plan;
-    if (violations < 3) { minp = minimise(prof, c.plan, a.vclass, prof->watchdog_s() * 2, &rr); minimise_reruns += rr; }
+    if (violations < 3 && !getenv("BLOCSIM_DISCOVERY")) { minp = minimise(prof, c.plan, a.vclass, prof->watchdog_s() * 2, &rr); minimise_reruns += rr; }
     ExecResult m = run_isolated(prof, minp, prof->watchdog_s() * 2);
     if (m.vclass != a.vclass) { minp = c.plan; m = a; }
     // the minimised plan may fall into a listed finding
